@@ -61,15 +61,7 @@ Proof. refute. Qed.
 Lemma index_null_differs : differs 1 [OSetChar 0 0 65].
 Proof. refute. Qed.
 
-(* strings that hold 0 bytes (after a growing resize): the storage copies are C-string copies.
-   EnsureAlloced(keepold) copies up to the first 0 but keeps len: the bytes behind it are
-   uninitialised, and once the first byte is set c_str() runs beyond the storage *)
-Lemma realloc_after_resize_differs : differs 1 [OResize 0 3; OReserve 0 20; OSetChar 0 0 65].
-Proof. refute. Qed.
-(* the same in EnsureDataWritable (copyn stops at the first 0) *)
-Lemma unshare_after_resize_differs :
-  differs 2 [OResize 0 3; OCopy 1 0; OSetChar 0 1 66; OSetChar 0 0 65].
-Proof. refute. Qed.
+(* strings that hold 0 bytes (after a growing resize) and the operations with C-string semantics *)
 (* append continues at the first 0 byte, not at length() *)
 Lemma append_after_resize_differs : differs 1 [OResize 0 8; OAppendLit 0 [88; 89]%N].
 Proof. refute. Qed.
@@ -78,4 +70,4 @@ Lemma assign_own_cstr_after_resize_differs : differs 1 [OSetLit 0 hello; OResize
 Proof. refute. Qed.
 
 Lemma full_alphabet_refuted : exists nv ops, run nv ops <> map Ok (spec_run nv ops).
-Proof. exists 1, [OResize 0%N 3; OReserve 0%N 20; OSetChar 0%N 0 65%N]. exact realloc_after_resize_differs. Qed.
+Proof. exists 1, [OResize 0%N 8; OAppendLit 0%N [88; 89]%N]. exact append_after_resize_differs. Qed.
